@@ -183,7 +183,8 @@ class Excel:
 
         return cls({
             'data': worksheets_data,
-            'titles': wb.sheetnames,
+            # the titles of the worksheets that were read: wb.sheetnames also lists chart sheets, which hold no cells
+            'titles': worksheets_titles,
             'suspicious_cells': suspicious_cells,
             'sheets_size': sheets_size,
         })
